@@ -115,7 +115,7 @@ PROPS["C03"] = dict(
     text="For destinations with host bytes of length 0..70000 in classes plain/colon/space/CR/LF/NUL/control/non-UTF-8/multibyte/IP-literal and edge ports, the harness writes the request in each inbound protocol (HTTP CONNECT, SOCKS5, SOCKS4a, SOCKS5-UDP header, RPFM attribute), lets the real decoder produce the target the rules see, feeds that target to every real outbound encoder (CONNECT via h11c_connect, SOCKS5, SOCKS4, SOCKS5-UDP, RPFM; full and partial writes) and parses the emitted bytes with strict reference parsers. Verdict: refused, or the next hop reads exactly the client's destination with no extra protocol fields; where the next hop is another redproxy, its real decoder must read it too.",
     note="trusted: the harness reference parsers (RFC 1928 / SOCKS4a / RFC 7230 request head / RPFM TLV); IP literals compare as addresses",
     design_ref="DESIGN.md 3 C03",
-    steps=[inproc("c03")],
+    steps=[inproc("c03"), e2e("c03")],
     assumptions=COMMON_ASSUME,
 )
 PROPS["C17"] = dict(
